@@ -3,7 +3,7 @@
    HttpMsgProofs.v. *)
 From Coq Require Import Init.Byte.
 From Hio Require Import Base.Prelude Model.HttpLine Model.Chunk Model.HttpMsg
-  Proofs.HttpLineProofs Proofs.ChunkProofs Proofs.HttpMsgProofs.
+  Proofs.HttpLineProofs Proofs.ChunkProofs Proofs.HttpMsgProofs Proofs.HttpMsgIdle.
 
 (* The line splitter (findEol/parseLine after the D14 fixes), for each of the
    three terminator sets the code uses, started in any skip state: every split
@@ -54,6 +54,19 @@ Theorem C13_message_sequence : forall reads1 reads2,
   concat reads1 = concat reads2 -> seen_of reads1 = seen_of reads2.
 Proof. intros r1 r2 E. unfold seen_of. rewrite (run_case_partition Req r1 r2 false E). reflexivity. Qed.
 Print Assumptions C13_message_sequence.
+
+(* Behind an idle prefix.  Whatever parse() / close() calls were made while the
+   armed parser had nothing buffered (Client.service closes the respondent on
+   every pass while the connection is cut off), the bytes that then arrive,
+   split into any non-empty reads each followed by parse(), leave the parser in
+   the state of the one-shot parse with the same completed messages: a closure
+   seen while idle does not leak into the message (0a30e14). *)
+Theorem C13_idle_prefix : forall k prefix reads,
+  Forall idle_op prefix -> Forall (fun r => r <> []) reads -> reads <> [] ->
+  hs_p (run_ops k (prefix ++ feed_ops reads)) = hs_p (run_ops k (prefix ++ feed_ops [concat reads])) /\
+  hs_out (run_ops k (prefix ++ feed_ops reads)) = hs_out (run_ops k (prefix ++ feed_ops [concat reads])).
+Proof. exact idle_prefix_fragmentation. Qed.
+Print Assumptions C13_idle_prefix.
 
 (* Non-vacuity: a pipelined request sequence (chunked with extension and
    trailer, then bare-LF HTTP/1.0 keep-alive, then content-length) read whole
